@@ -82,6 +82,10 @@ type Series struct {
 	MultiRef bool
 	// EverCreated: the series has existed in the head at some point.
 	EverCreated bool
+	// GCd: the series left the head at least once (garbage collection or eviction).
+	GCd bool
+	// OrphanTainted: some sample of the series was logged before its series record (known finding).
+	OrphanTainted bool
 }
 
 // Model is the reference state.
@@ -120,7 +124,7 @@ func (m *Model) Clone() *Model {
 	for _, s := range m.Series {
 		ns := &Series{Idx: s.Idx, Labels: s.Labels, Cells: make(map[int64]*Cell, len(s.Cells)), InHead: s.InHead, OOOOpen: map[int64]bool{}}
 		ns.HeadDeleted = append([][2]int64(nil), s.HeadDeleted...)
-		ns.MultiRef, ns.EverCreated = s.MultiRef, s.EverCreated
+		ns.MultiRef, ns.EverCreated, ns.GCd, ns.OrphanTainted = s.MultiRef, s.EverCreated, s.GCd, s.OrphanTainted
 		for t, c := range s.Cells {
 			ns.Cells[t] = c.clone()
 		}
@@ -158,6 +162,8 @@ type App struct {
 	Pending []Pending
 	// Covered reports whether a head tombstone of the series currently covers t (known finding TagTombHides).
 	Covered func(series int, t int64) bool
+	// OOOTag, if set, tags cells stored through the out-of-order path by this commit (known finding).
+	OOOTag string
 }
 
 // Decision is the model's verdict on one sample.
@@ -267,7 +273,7 @@ func (m *Model) Commit(a *App) CommitEffect {
 			if c := s.Cells[v.T]; c != nil && c.KF == "wal-sample-before-series-record" {
 				c.KFCands = append(c.KFCands, v)
 				c.KFCandTag = c.KF
-			} else if c == nil && s.hasKF("wal-sample-before-series-record") {
+			} else if c == nil && s.OrphanTainted {
 				// ... and a sample dropped because a sample that replay will lose made it out-of-order may be
 				// replayed in its place.
 				s.Cells[v.T] = &Cell{Cands: []Sample{v}, Deleted: true, KF: "wal-sample-before-series-record"}
@@ -295,8 +301,11 @@ func (m *Model) Commit(a *App) CommitEffect {
 			if len(c.Cands) == 1 && a.Covered != nil && a.Covered(p.Series, v.T) {
 				c.KF = TagTombHides
 			}
-			if s.MultiRef && len(c.Cands) == 1 {
+			if s.MultiRef && len(c.Cands) == 1 && c.KF == "" {
 				c.KF = TagOOODupRef
+			}
+			if a.OOOTag != "" && len(c.Cands) == 1 && c.KF == "" {
+				c.KF = a.OOOTag
 			}
 			s.OOOOpen[v.T] = true
 			s.InHead = true
@@ -311,8 +320,14 @@ func (m *Model) Commit(a *App) CommitEffect {
 			if p.KF != "" && len(c.Cands) == 1 {
 				c.KF = p.KF
 			}
+			if p.KF == "wal-sample-before-series-record" {
+				s.OrphanTainted = true
+			}
 			if len(c.Cands) == 1 && a.Covered != nil && a.Covered(p.Series, v.T) {
 				c.KF = TagTombHides
+			}
+			if len(c.Cands) == 1 && c.KF == "" && s.MaxOOOHeadT() > v.T {
+				c.KF = TagReplayOrder
 			}
 			vv := v
 			s.Last = &vv
@@ -350,6 +365,28 @@ func (s *Series) cell(t int64) *Cell {
 // ref while the old record is still in the WAL) resets the series' m-mapped chunks to those of the duplicate
 // ref and thereby drops out-of-order chunks written under the surviving ref.
 const TagOOODupRef = "ooo-mmap-chunks-dropped-on-duplicate-series-record"
+
+// TagRefReuse is the known finding: the chunk disk mapper restarts its file sequence once all head chunk files
+// are deleted, so new out-of-order chunks get refs at or below stale garbage-collection markers
+// (DB.lastGarbageCollectedMmapRef, Head.minOOOMmapRef) and are hidden from queries / collected early.
+const TagRefReuse = "ooo-chunk-ref-reuse-after-all-head-chunk-files-deleted"
+
+// TagReplayOrder is the known finding: out-of-order samples are also in the WAL; at replay a sample that was
+// out-of-order only because it was below the appender's window (not older than the series' newest sample) is
+// appended in-order, and an in-order sample with a smaller timestamp that an older appender committed later is
+// then dropped as out-of-order.
+const TagReplayOrder = "inorder-sample-lost-at-replay-after-newer-ooo-sample"
+
+// MaxOOOHeadT returns the largest timestamp held in the out-of-order head for the series (MinInt64 if none).
+func (s *Series) MaxOOOHeadT() int64 {
+	m := int64(math.MinInt64)
+	for t, c := range s.Cells {
+		if c.OOOHead && !c.Deleted && t > m {
+			m = t
+		}
+	}
+	return m
+}
 
 // TagTombHides is the known finding: a head tombstone hides samples appended into its range after the deletion.
 const TagTombHides = "head-tombstone-hides-later-append"
@@ -394,11 +431,11 @@ func (m *Model) Delete(mint, maxt int64, match func(labels.Labels) bool, headMin
 				switch {
 				case c.OOOHead || c.Zombie:
 					c.Deleted, c.KF, c.AfterRestartOnly = true, TagDeleteMissesOOO, false
-				case t >= headMin:
-					// in the head at deletion time: its chunk may be reloaded from disk after a restart
-					c.Deleted, c.KF, c.AfterRestartOnly, c.DelEpoch = true, TagZombieDelete, true, m.Epoch
 				default:
-					delete(s.Cells, t)
+					// Kept as "deleted": within this process lifetime it must never be returned again. After a
+					// restart the listed finding can bring it back, but only if it is not below the replay
+					// cut-off (PurgeDeletedBelow is called at every restart with that cut-off).
+					c.Deleted, c.KF, c.AfterRestartOnly, c.DelEpoch = true, TagZombieDelete, true, m.Epoch
 				}
 				removed++
 			}
@@ -406,6 +443,19 @@ func (m *Model) Delete(mint, maxt int64, match func(labels.Labels) bool, headMin
 	}
 	m.Deletes++
 	return removed
+}
+
+// PurgeDeletedBelow forgets deleted cells older than the WAL replay cut-off b (the highest MaxTime of the
+// in-order blocks on disk): neither the WAL nor head chunk files can bring those back, so a reappearance is an
+// ordinary violation again.
+func (m *Model) PurgeDeletedBelow(b int64) {
+	for _, s := range m.Series {
+		for t, c := range s.Cells {
+			if c.Deleted && c.KF == TagZombieDelete && t < b {
+				delete(s.Cells, t)
+			}
+		}
+	}
 }
 
 // ClearOOOHead records that the out-of-order head was compacted into blocks.
